@@ -33,6 +33,8 @@ CHECKS["C20"] = dict(text="Theorems (Coq): every charge term of a handler is cou
   ref="6 C20", technique="Coq proof of the price terms + correspondence of the per-instruction totals against the transcribed cycle table", note=_TB + "; the per-form totals are checked by differential testing, not proved (partial); TRAPA #0 and I/O-register operands excluded")
 CHECKS["C16"] = dict(text="Theorems (Coq): port_refines (induction over any history of DDR writes, DR writes and external input changes: the bus's port registers refine the abstract port latch/ddr/pin; reading DR returns latch on output bits and the pin on input bits), ports_independent (all 11 ports), announced_is_current (invariant: last ioport announcement = current output, preserved by events on the same and on other ports). Correspondence: bounded-exhaustive histories over a covering value set on every port, random longer ones on pairs of ports, through Bus::write / Bus::read / Bus::write_port with captured messages; announcements judged by the property's rule (redundant messages allowed).",
   ref="6 C16", technique="Coq proof (invariant + abstraction function, byte-level boolean algebra by bit blasting, induction over histories) + correspondence", note=_TB + "; message time stamps are only checked to be non-decreasing")
+CHECKS["C17"] = dict(text="Theorems (Coq): elapse_refines (feeding n states to update_timer8_0 at once = n single-state steps of the tick-by-tick reference: counter, flags, clears, requests, phase), partition_independent (any split of the same elapsed time, by induction over the list of charges, via update (a+b) = update b . update a), no_clock_no_count, count_refines (per-count flags / clear / requests under the side condition), flags_stay_set, clock_select_phase (0 <= p < divisor after every TCR write). Correspondence: all TCR values x start values x partitions of the same totals x interleaved register writes on the real update_modules / Bus::write, TCNT/TCSR and the pending queue compared.",
+  ref="6 C17", technique="Coq proof (div/mod identities, induction over elapsed states and over charge lists) + correspondence", note=_TB + "; count claims for CKS 0-3 only; external clock / 16-bit cascade modes are outside the claim")
 NOT_APPLICABLE = []
 
 def main():
